@@ -421,10 +421,10 @@ def c13_5a(run):
             order = [f't{j}' for j in range(k)]
             j = len(kept)
             cum = lambda n_: sum((z3.ZeroExt(4, olds[x][2]) for x in range(n_)), z3.BitVecVal(0, 132))
-            claim = [z3.BoolVal(kept == order[:j] and out == order[j:]), z3.ULE(cum(j), z3.ZeroExt(4, bal))]
+            claim = [z3.BoolVal(kept == order[:j] and sorted(out) == sorted(order[j:])), z3.ULE(cum(j), z3.ZeroExt(4, bal))]
             if j < k:
                 claim.append(z3.UGT(cum(j + 1), z3.ZeroExt(4, bal)))
-            run.prove(f'kept = longest affordable prefix, demoted = the rest in nonce order {lab}', p.pc, z3.And(*claim))
+            run.prove(f'kept = longest affordable prefix, demoted = exactly the rest {lab}', p.pc, z3.And(*claim))
     run.require_reached(*run.cur.reach)
 
 
